@@ -149,6 +149,17 @@ def run(ctx):
     pool.shutdown()
     for h in (hs[n1 // 2:n1 // 2 + 1] + hs[n1:n1 + 2]):
         ctx.sample({"history": to_lines(h)})
+    # directed: the histories of the repaired findings (they must stay repaired), and regular expressions whose reading
+    # differs between POSIX basic syntax (what the stored rule is compiled with) and extended syntax, added and removed
+    # around call sites that exist already
+    SP = "Log %s %s 4 4 %s" % (T("b.c"), T("f"), T("x+z"))
+    SX = "Log %s %s 5 4 %s" % (T("ab.c"), T("g"), T("xxz"))
+    directed = [sc for n in sorted(KF) for sc in KF[n][1]]
+    for pat in ("x+z", "^x|y", "x?z", "x{2}z", "^x(x"):
+        directed.append(["Open", "Enable 1", SP, SX, S1, "Add 1 %d %s 0 7" % (FORMAT_RE, T(pat)), SP, SX, S1,
+                         "Remove 1 %d %s 0 7" % (FORMAT_RE, T(pat)), SP, SX, S1, "Add 1 %d %s 0 7" % (FILE, T("*")),
+                         "TagSet 3 %d %s 0 7" % (FORMAT_RE, T(pat)), SP, SX, S1, "TagClear %d %s 0 7" % (FORMAT_RE, T(pat)), SP, SX, S1])
+    hs += [[ln.split() for ln in sc] for sc in directed]
     ctx.exec_validate(exe, hs, to_lines, "LogRouteTrace.tla", trace_cfg(ctx), label="c12", nshards=4 * min(jobs, 4))
     # (4) threaded targets: with the logging thread started and TWO threaded targets selected by the same call sites, each
     #     receives every message exactly once, in order (call-level events of free-running executions against LogThreadFree)
